@@ -101,9 +101,9 @@ let () =
          incr stepno;
          incr steps;
          match String.split_on_char '|' (String.sub line 2 (n - 2)) with
-         | [ops; outs; cbs; _acct; snaps] ->
+         | [ops; outs; cbs; accts; snaps] ->
            let op = parse_ints ops and iout = parse_ints outs and icb = parse_ints cbs
-           and isnap = parse_ints snaps in
+           and isnap = parse_ints snaps and iacct = parse_ints accts in
            (match !state with
             | None -> ()
             | Some s ->
@@ -125,6 +125,18 @@ let () =
                  else if msnap <> isnap then begin
                    alive := false; incr bad_cases;
                    report "snap" (zl_to_string msnap) (zl_to_string isnap) (String.trim ops)
+                 end
+                 else if (match op, iacct with
+                          | [o], _ when o = z_of_int 99 -> false
+                          | _, [_dk; _dv; dd; live] ->
+                            (* ownership ledger: no object dropped twice, and the tracked keys and values still
+                               alive are exactly one key and one value per retained entry of the model *)
+                            dd <> Z0 || live <> BinInt.Z.mul (z_of_int 2) (BinInt.Z.of_nat (Univ.uretained s'))
+                          | _ -> false) then begin
+                   alive := false; incr bad_cases;
+                   report "ledger"
+                     ("[dd=0 live=" ^ z_to_string (BinInt.Z.mul (z_of_int 2) (BinInt.Z.of_nat (Univ.uretained s'))) ^ "]")
+                     (zl_to_string iacct) (String.trim ops)
                  end
                  else begin
                    let h = Hashtbl.hash_param 256 1024 msnap in
